@@ -33,7 +33,7 @@ def _gcc_filter(fname: str, fp: typing.TextIO) -> str:
         if line.startswith("# "):
             last_quote = line.rfind('"')
             if last_quote != -1:
-                keep = line[:last_quote].endswith(fname)
+                keep = line[:last_quote].endswith(f'"{fname}')
 
         if keep:
             new_output.write(line)
@@ -266,7 +266,7 @@ def _pcpp_filter(
     # isn't what a typical user of cxxheaderparser would want, so we strip out
     # the line directives and any content that isn't in our original file
 
-    line_ending = f'{fname}"\n'
+    line_ending = f'"{fname}"\n'
 
     new_output = io.StringIO()
     keep = True
